@@ -16,6 +16,7 @@ import itertools
 
 from . import core
 from . import flat_export as fe
+from .c15 import MULTILINE_SEEDS
 
 SIG_POSSTR = "C02:string literal containing `_pos=`: a feature regex captures a position inside the literal (span outside the listing)"
 
@@ -76,7 +77,7 @@ def stream(ctx, drv):
 
     # real trees
     gen = fe.Gen(ctx.rng, max_depth=3, adv=0.1)
-    sources = list(SEEDS)
+    sources = list(SEEDS) + list(MULTILINE_SEEDS)
     for _ in range(150 if ctx.tier == "quick" else 3000):
         sources.append(fe.gen_valid(gen)[0])
     for p in sorted((core.REPO / "examples").glob("**/programs/**/*.py"))[: (40 if ctx.tier == "quick" else 300)]:
@@ -130,11 +131,11 @@ def stream(ctx, drv):
                                        "signature": sig,
                                        "replay": {"kind": "tree-whole-span", "source": src, "span": [s, e], "lines": nlines,
                                                   "hypotheses_hold": hyp}})
-            elif (s, e) != (info["first"], exp_end) and hyp:
-                ctx.violations.append({"what": "the whole_span occurrence is not (first positioned line, last positioned line)",
+            elif (s, e) != tuple(sorted((info["first"], exp_end))) and hyp:
+                ctx.violations.append({"what": "the whole_span occurrence is not (first positioned line, last positioned line), sorted",
                                        "signature": sig,
                                        "replay": {"kind": "tree-whole-span", "source": src, "span": [s, e],
-                                                  "expected": [info["first"], exp_end]}})
+                                                  "expected": sorted((info["first"], exp_end))}})
         elif "exc" in b:
             ctx.violations.append({"what": "get_bindings raises ValueError on the whole_span captures", "signature": sig,
                                    "replay": {"kind": "tree-whole-span", "source": src}})
@@ -146,7 +147,10 @@ def stream(ctx, drv):
                     ctx.count("tree:node-spans", None, n=1)
                     if span.start > span.end or span.start < 1 or span.end > nlines:
                         ctx.dist("tree: invalid node span with hypotheses " + ("holding" if hyp else "failing"))
-                        ctx.violations.append({"what": f"{name} spans {span.start}-{span.end} of a {nlines}-line program",
+                        # put first: the replay file written by core.finish is the first concrete violation, and a whole
+                        # program is the most readable replay of a span that is not a line range
+                        first = bool(ctx.violations) and ctx.violations[0].get("replay", {}).get("kind") == "tree-node-span"
+                        ctx.violations.insert(len(ctx.violations) if first else 0, {"what": f"{name} spans {span.start}-{span.end} of a {nlines}-line program",
                                                "signature": sig,
                                                "replay": {"kind": "tree-node-span", "source": src, "label": name,
                                                           "span": [span.start, span.end], "lines": nlines,
